@@ -6,7 +6,8 @@
    provided the multi-line string re-indentation does not run on this input: `format_multiline_strings` is off, or no token is
    typed TextLiteral(MultiLine).  With it on and such a literal present, the step the wrapper performs is an admissible FWrap
    step by WrapStepProofs.rewrite_is_wrap_step IF the literal starts with a quote and has no line ending inside a U+3000 —
-   two facts about the lexer's multi-line literals that are not proved (the link that is missing for the full statement). *)
+   two facts about the lexer's multi-line literals: they are proved in FormatMLProofs.v, and FormatContentMLProofs.v gives the
+   statement without the side condition (format_preserves_nonblank).  This file keeps the simpler argument and the lemmas shared by both. *)
 From Coq Require Import Lia.
 From PasfmtVerif Require Import Model.Format Model.Pipeline Proofs.FormatProofs Proofs.FormatWrapProofs Proofs.FormatIgnoredProofs
   Proofs.WrapApplyProofs Proofs.LexerProofs Proofs.ReconstructProofs Proofs.RewritersProofs Proofs.PipelineProofs Proofs.EndToEnd
